@@ -121,6 +121,12 @@ func c12ResetSandbox(sb string, files map[string]string) error {
 		return err
 	}
 	for name, content := range files {
+		if content == c12io.DirMarker {
+			if err := os.Mkdir(filepath.Join(sb, name), 0o755); err != nil {
+				return err
+			}
+			continue
+		}
 		if err := os.WriteFile(filepath.Join(sb, name), []byte(content), 0o644); err != nil {
 			return err
 		}
